@@ -2059,6 +2059,11 @@ def import_cross_module_helpers(trees, stats):
         need = free - bnames
         extra = []
         ok = True
+        # names bound in both modules must be the same thing there
+        a_bound = _bound_names(atree)
+        for nm in sorted(free & bnames & a_bound):
+          if _binding_text(tree, rel, nm, modname) != _binding_text(atree, arel, nm, modname):
+            ok = False
         for nm in sorted(need):
           got = None
           for st in atree.body:
@@ -2354,6 +2359,14 @@ def push_down_new_base_methods(trees, stats):
           continue
         if not (_had(r2, d) or _uses(d)):
           continue
+        if r2 != rel:
+          modname_ = {}
+          for r_ in trees:
+            nm_ = r_[:-3].replace('/', '.')
+            modname_[nm_[:-9] if nm_.endswith('.__init__') else nm_] = r_
+          fr_ = set(x.id for x in ast.walk(m) if isinstance(x, ast.Name) and isinstance(x.ctx, ast.Load)) & _bound_names(trees[rel])
+          if any(_binding_text(trees[rel], rel, nm_, modname_) != _binding_text(trees[r2], r2, nm_, modname_) for nm_ in fr_):
+            continue       # a module-level name the method reads means something else in the subclass's module
         d.body.append(copy.deepcopy(m))
         n += 1
       if not _uses(B, skip=m):
